@@ -125,14 +125,62 @@ def ensure_facts(profile="dev", repo=None, quiet=False):
         lock.close()
 
 
+RENAMES = {}     # filled by load_facts: new name -> the anchored name it is treated as (reported in the evidence notes)
+
+
+def _rename_aliases(crates):
+    """A function the rules name (oracles/known_signatures.json) that no longer exists, while exactly one NEW function with the
+    same signature exists in the same container (renamed) or with the same name elsewhere (moved): the new one is treated as the
+    anchored one. Anything ambiguous is left alone (the rule then reports ANCHOR-MISSING)."""
+    here = os.path.dirname(os.path.dirname(os.path.abspath(__file__)))
+    try:
+        sigs = json.load(open(os.path.join(here, "oracles", "known_signatures.json")))
+        known = set(json.load(open(os.path.join(here, "oracles", "known_functions.json"))))
+    except Exception:
+        return {}
+    present = {}
+    for c, data in crates.items():
+        for b in data["bodies"]:
+            if b["kind"] in ("Fn", "AssocFn") and not b.get("exp"):
+                present[b["key"]] = {"inputs": b.get("inputs"), "output": b.get("output"), "is_async": b.get("is_async"), "kind": b["kind"]}
+    missing = [k for k in sigs if k not in present and k.split("::")[0] in crates]
+    new = [k for k in present if k not in known]
+    out = {}
+
+    def container(k):
+        return k.rsplit("::", 1)[0]
+    for k in missing:
+        cands = [n for n in new if present[n] == sigs[k] and container(n) == container(k)]
+        rivals = [m for m in missing if sigs[m] == sigs[k] and container(m) == container(k)]
+        if len(cands) == 1 and len(rivals) == 1:
+            out[cands[0]] = k
+            continue
+        cands = [n for n in new if present[n] == sigs[k] and n.rsplit("::", 1)[1] == k.rsplit("::", 1)[1]]
+        if len(cands) == 1 and cands[0] not in out:
+            out[cands[0]] = k
+    return out
+
+
 def load_facts(facts_dir):
+    import re as _re
     crates = {}
+    texts = {}
     for c, k in CRATES.items():
         fs = sorted(glob.glob(os.path.join(facts_dir, "%s-%s-*.json" % (c, k))))
         if not fs:
             raise SystemExit("FATAL: facts of crate %s missing in %s" % (c, facts_dir))
         with open(fs[-1]) as fh:
-            crates[c] = json.load(fh)
+            texts[c] = fh.read()
+        crates[c] = json.loads(texts[c])
+    RENAMES.clear()
+    al = _rename_aliases(crates)
+    if al:
+        RENAMES.update(al)
+        for c in crates:
+            t = texts[c]
+            for n, k in al.items():
+                t = _re.sub(r"(?<![A-Za-z0-9_])" + _re.escape(n) + r"(?![A-Za-z0-9_])", lambda m, k=k: k, t)
+            crates[c] = json.loads(t)
     return crates
 
 
